@@ -211,6 +211,21 @@ def run_case(case, ctx):
                 if V.shape != want.shape or not np.all(np.abs(V - want) <= 1e-12):
                     ctx.violation("vectorize", "vectorize(exact) differs from the exact landscape's own function at the grid nodes",
                                   observed=V.tolist(), expected=want.tolist(), extra={"D": D, "start": vstart, "stop": vstop, "num_steps": num})
+                # the same sampling asked of a landscape built with compute=False (vectorize is the first thing
+                # that needs the critical points) and of the negated landscape (all values <= 0: the default grid
+                # is still the support, the values are the negated ones)
+                if num in (5, 13):
+                    exd = PersLandscapeExact(dgms=[A], hom_deg=0, compute=False)
+                    for what, obj, sign in (("deferred landscape", exd, 1.0), ("negated landscape", ctx.call(lambda: -ex), -1.0)):
+                        vo = quiet(ctx, vectorize, obj, num_steps=num, **vkw)
+                        Vo = values_of(vo)
+                        ctx.valid()
+                        if Vo is None or Vo.shape != V.shape or not np.array_equal(Vo, sign * V + 0.0) or float(vo.start) != vstart or float(vo.stop) != vstop:
+                            ctx.violation("vectorize-variant", "vectorize of the %s differs from (the negation of) vectorize of the landscape itself" % what,
+                                          observed=[float(vo.start), float(vo.stop), None if Vo is None else Vo.tolist()], expected=[vstart, vstop, (sign * V + 0.0).tolist()],
+                                          extra={"D": D, "num_steps": num, "grid": [gs, ge]})
+                if V.shape != want.shape or not np.all(np.abs(V - want) <= 1e-12):
+                    pass
                 elif exact_ok:
                     T = truth(D, grid)[: V.shape[0]]
                     if (gs is None and vstart != lo) or (ge is None and vstop != hi):
